@@ -11,7 +11,17 @@ EVENTS = {
     'dro': {'X': [], 'V': [], 'Z': [], 'F': ['Z'], 'C1': ['X', 'Z', 'F'], 'C2': ['X', 'V', 'Z', 'F'],
             'O': ['X', 'V', 'Z', 'F']},
 }
-CANON = {'ro': ['X', 'Z', 'Y', 'O', 'C1', 'C2', 'C3'], 'dro': ['X', 'V', 'Z', 'F', 'O', 'C1', 'C2']}
+# ro2 / dro2: a 2-entry decision rule (ro: ldr(2); dro: dvar(2) with affine adaptation) whose rows need different
+# coefficients, and a further random variable W that is part of the model (bounded in the set, used in a constraint)
+# and may be declared at every position: before/after the rule, between adapt() and the first use, after the use.
+EVENTS['ro2'] = {'X': [], 'Z': [], 'W': [], 'YD': [], 'YA': ['YD', 'Z'], 'U': ['X', 'Z', 'YA'],
+                 'CW': ['X', 'Z', 'W'], 'O': ['X', 'Z', 'W']}
+EVENTS['dro2'] = {'X': [], 'Z': [], 'W': [], 'YD': [], 'YA': ['YD', 'Z'], 'F': ['Z', 'W'],
+                  'U': ['X', 'Z', 'YA', 'F'], 'CW': ['X', 'Z', 'W', 'F'], 'O': ['X', 'Z', 'W', 'YA', 'F']}
+MASKS = ['full', 'diag', 'part']
+FE = {'ro': 'ro', 'dro': 'dro', 'ro2': 'ro', 'dro2': 'dro'}
+CANON = {'ro': ['X', 'Z', 'Y', 'O', 'C1', 'C2', 'C3'], 'dro': ['X', 'V', 'Z', 'F', 'O', 'C1', 'C2'],
+         'ro2': ['X', 'YD', 'Z', 'W', 'YA', 'O', 'U', 'CW'], 'dro2': ['X', 'YD', 'Z', 'W', 'YA', 'F', 'O', 'U', 'CW']}
 NOISE = {'NX': [], 'NZ': [], 'ND': ['X', 'Z']}      # ND needs x and z (dro: also F, no st before ambiguity())
 
 
@@ -37,7 +47,7 @@ def with_noise(fe, order, k):
             nk = remaining[0]
             for p in range(len(cur) + 1):
                 before = set(cur[:p])
-                deps = list(NOISE[nk]) + (['F'] if fe == 'dro' and nk == 'ND' else [])
+                deps = list(NOISE[nk]) + (['F'] if fe in ('dro', 'dro2') and nk == 'ND' else [])
                 if all(d in before for d in deps):
                     for out in rec(cur[:p] + [nk] + cur[p:], remaining[1:]):
                         yield out
@@ -57,7 +67,78 @@ class _E(object):
     pass
 
 
+T2 = np.array([[1.0, -1.0], [0.5, 2.0]])      # target coefficients of the 2-entry rule: distinct per row / component
+W2 = np.array([1.0, 1.5])
+
+
+def _adapt2(y, z, mask):
+    if mask == 'full':
+        y.adapt(z)
+    elif mask == 'diag':
+        y[0].adapt(z[0])
+        y[1].adapt(z[1])
+    elif mask == 'part':
+        y[0].adapt(z)
+        y[1].adapt(z[1])
+    # mask 'static': no adaptation (sensitivity reference only)
+
+
+def build2(fl, order, mask):
+    """ro2 / dro2 models (see EVENTS)."""
+    R = C.R
+    rso = R['rso']
+    e = _E()
+    dro_fe = FE[fl] == 'dro'
+    m = R['dro'].Model(2) if dro_fe else R['ro'].Model()
+    e.m = m
+    for ev in order:
+        x, z, w, y = (getattr(e, n, None) for n in ('x', 'z', 'w', 'y'))
+        if ev == 'X':
+            e.x = m.dvar(2)
+        elif ev == 'Z':
+            e.z = m.rvar(2)
+        elif ev == 'W':
+            e.w = m.rvar()
+        elif ev == 'NX':
+            m.dvar(2)
+        elif ev == 'NZ':
+            m.rvar()
+        elif ev == 'ND':
+            if dro_fe:
+                (x[0] >= z @ C3).forall([rso.pnorm(z, 3) <= 0.25, z.sum() == 0.125])
+            else:
+                (x[0] >= z @ C3).forall(rso.pnorm(z, 3) <= 0.25, z.sum() == 0.125)
+        elif ev == 'YD':
+            e.y = m.dvar(2) if dro_fe else m.ldr(2)
+        elif ev == 'YA':
+            _adapt2(y, z, mask)
+        elif ev == 'F':
+            f = m.ambiguity()
+            f[0].suppset(rso.norm(z, 'inf') <= 1, w <= 1, w >= -0.5, z[0] + w <= 1.5)
+            f[1].suppset(rso.norm(z, 2) <= 0.75, w <= 0.5, w >= -0.25)
+            f.exptset(rso.E(z) <= 0.25, rso.E(z) >= -0.25)
+            e.f = f
+        elif ev == 'U':         # first use of the rule: every row must dominate its own target
+            m.st(y >= T2 @ z)
+            m.st(x[0] >= y[0] - T2[0] @ z + 0.5)
+            m.st(x[1] >= y[1] - T2[1] @ z + 0.25 * z[0] + 0.25)
+        elif ev == 'CW':
+            m.st(x >= 0)
+            m.st(x[0] + x[1] >= 1 + 0.5 * w + 0.25 * z[0])
+        elif ev == 'O':
+            if dro_fe:
+                m.minsup(W2 @ x + 0.25 * z[1] + 0.5 * w, e.f)
+            else:
+                m.minmax(W2 @ x + 0.25 * z[1] + 0.5 * w, rso.norm(z, 'inf') <= 1, w <= 1, w >= -0.5,
+                         z[0] + w <= 1.5)
+        else:
+            raise ValueError(ev)
+    return e
+
+
 def build(fe, order, variant=None):
+    if fe in ('ro2', 'dro2'):
+        return build2(fe, order, variant or 'full')
     R = C.R
     rso = R['rso']
     e = _E()
@@ -140,29 +221,53 @@ def _solve(fe, order, variant=None):
         return ('raise', C.exc_class(ex))
 
 
-def reference(fe):
-    if fe not in _MEMO:
+def reference(fe, mask=None):
+    key = (fe, mask)
+    if key not in _MEMO:
         can = CANON[fe]
-        _MEMO[fe] = {'canon': _solve(fe, can), 'static': _solve(fe, can, 'static'), 'noC1': _solve(fe, can, 'noC1')}
-    return _MEMO[fe]
+        if fe in ('ro2', 'dro2'):
+            _MEMO[key] = {'canon': _solve(fe, can, mask), 'static': _solve(fe, can, 'static')}
+            if mask != 'full':      # a partial mask must be worse than full adaptation for the instance to discriminate
+                _MEMO[key]['noC1'] = _solve(fe, can, 'full')
+        else:
+            _MEMO[key] = {'canon': _solve(fe, can), 'static': _solve(fe, can, 'static'),
+                          'noC1': _solve(fe, can, 'noC1')}
+    return _MEMO[key]
+
+
+def _wpos(order):
+    if 'W' not in order:
+        return ''
+    p = order.index
+    if p('W') < p('YD'):
+        return '|w:pre-rule'
+    if p('W') < p('YA'):
+        return '|w:rule..adapt'
+    if p('W') < p('U'):
+        return '|w:adapt..use'
+    return '|w:post-use'
 
 
 def run(case):
     fe = case['fe']
     order = case['order']
-    ref = reference(fe)
+    mask = case.get('mask')
+    ref = reference(fe, mask)
     exp = ref['canon']
-    got = _solve(fe, order)
+    got = _solve(fe, order, mask)
     nops = 3 * len(order) + 1
     res = {'ops': nops, 'states': 1, 'transitions': nops}
     # signature features: constraint-like events created before the last decision-variable declaration
-    dv = [i for i, ev in enumerate(order) if ev in ('X', 'V', 'NX')]
+    dv = [i for i, ev in enumerate(order) if ev in ('X', 'V', 'NX', 'YD')]
     last = max(dv)
-    before = sorted(set(ev for ev in order[:last] if ev in ('C1', 'C2', 'C3', 'O', 'ND', 'Y')))
+    before = sorted(set(ev for ev in order[:last] if ev in ('C1', 'C2', 'C3', 'O', 'ND', 'Y', 'U', 'CW')))
     noise = '+'.join(ev for ev in order if ev in NOISE) or '-'
-    rv = [i for i, ev in enumerate(order) if ev in ('Z', 'NZ')]
-    rbefore = sorted(set(ev for ev in order[:max(rv)] if ev in ('C1', 'C2', 'C3', 'O', 'ND', 'Y', 'F')))
+    rv = [i for i, ev in enumerate(order) if ev in ('Z', 'NZ', 'W')]
+    rbefore = sorted(set(ev for ev in order[:max(rv)] if ev in ('C1', 'C2', 'C3', 'O', 'ND', 'Y', 'F', 'U', 'CW',
+                                                                 'YA')))
     feat = 'dvar_after:%s|rvar_after:%s|noise:%s' % ('+'.join(before) or '-', '+'.join(rbefore) or '-', noise)
+    if mask:
+        feat += '|mask:%s%s' % (mask, _wpos(order))
     detail = 'order %s -> %s ; canonical %s -> %s' % (' '.join(order), C.fmt(got), ' '.join(CANON[fe]), C.fmt(exp))
     if got[0] == 'raise' or exp[0] == 'raise':
         if got[0] == 'raise' and exp[0] == 'raise':
@@ -180,6 +285,6 @@ def run(case):
     if c == 'differ':
         res.update(status='violation', sig='order|%s|value|%s' % (fe, feat), detail=detail)
         return res
-    sens = all(ref[k][0] == 'opt' and not C.close(ref[k][1], exp[1], 1e-3) for k in ('static', 'noC1'))
+    sens = all(ref[k][0] == 'opt' and not C.close(ref[k][1], exp[1], 1e-3) for k in ref if k != 'canon')
     res.update(status='pass', outcome='equal', nontrivial=bool(sens), validated=1)
     return res
